@@ -22,6 +22,7 @@ exit 0 held / 1 violation / 2 harness problem. Evidence JSON -> $VERIF_EVID_OUT.
 """
 import hashlib
 import json
+import glob
 import os
 import re
 import shutil
@@ -584,6 +585,37 @@ def main():
         ck.eq(cconst("TCP_STATE_ACTIVE"), 0, "TCP_STATE_ACTIVE (Go treats every State other than the closing literal, incl. zero-initialised and UDP entries, as established)")
         tcp_states = sorted(n for n in C["consts"] if n.startswith("TCP_STATE_"))
         ck.eq(tcp_states, ["TCP_STATE_ACTIVE", "TCP_STATE_CLOSING"], "enumerators of enum tcp_state known to the Go janitor")
+
+    # 3c. idle limits applied by both sides to the shared conn_state.last_seen_ns: the
+    # kernel's *_TIMEOUT_NS defines vs the durations the Go conn-state janitor uses
+    # (read from the janitor's own `xTimeoutNano := <ident>.Nanoseconds()` lines, so a
+    # renamed or re-pointed identifier is followed; unresolvable pieces are noted, not failed)
+    def go_duration(ident):
+        unit = {"Nanosecond": 1, "Microsecond": 10**3, "Millisecond": 10**6, "Second": 10**9, "Minute": 60 * 10**9, "Hour": 3600 * 10**9}
+        for path in sorted(glob.glob(os.path.join(REPO, "control", "*.go"))):
+            if path.endswith("_test.go"):
+                continue
+            m = re.search(r"^\s*%s\s*(?:time\.Duration\s*)?=\s*(\d+)\s*\*\s*time\.(\w+)\s*(?://.*)?$" % re.escape(ident), open(path).read(), re.M)
+            if m and m.group(2) in unit:
+                return int(m.group(1)) * unit[m.group(2)], os.path.basename(path)
+        return None, None
+    try:
+        jan = open(os.path.join(REPO, "control", "control_plane.go")).read()
+    except OSError:
+        jan = ""
+    for var, cdef in (("normalTimeoutNano", "UDP_CONN_STATE_TIMEOUT_NS"), ("establishedTimeoutNano", "TCP_CONN_STATE_ESTABLISHED_TIMEOUT_NS"),
+                      ("closingTimeoutNano", "TCP_CONN_STATE_CLOSING_TIMEOUT_NS")):
+        m = re.search(r"\b%s\s*:=\s*(\w+)\.Nanoseconds\(\)" % var, jan)
+        cval = cconst(cdef)
+        if not m or cval is None:
+            ck.notes.append("idle limit %s / %s not cross-checked (janitor line or C define not found)" % (var, cdef))
+            continue
+        gval, where = go_duration(m.group(1))
+        if gval is None:
+            ck.notes.append("idle limit %s: Go duration %s not resolvable by the script (not cross-checked)" % (var, m.group(1)))
+            continue
+        ck.eq(gval, cval, "conn-state janitor %s = %s (control/%s) vs C %s: both are applied to the shared last_seen_ns" % (var, m.group(1), where, cdef))
+        ck.cls("shared_idle_limits")
 
     # 4. maps: key/value sizes vs the Go types used with them; tags
     cmaps = {m["name"] for m in C["maps"]}
